@@ -227,8 +227,12 @@ def run_tf(task, acc):
   opt = c07.build_tearfree(cfg)
   params_np = {k: G.dyadic(tuple(s), "P" + k) for k, s in shapes.items()}
   params = {k: jnp.asarray(v) for k, v in params_np.items()}
-  alpha = G.tree_alphabet({k: tuple(v) for k, v in shapes.items()}, EVENTS,
-                          (0, 3), task["seed"])
+  # row-sparse events: after gRow0 the direction of gRow1s lies entirely in
+  # eigen-directions that Shampoo drops (2^-28 of the block maximum), so its
+  # preconditioned gradient is exactly zero while the graft step is not
+  tf_events = EVENTS + ["gRow0", "gRow1s"]
+  alpha = G.tree_alphabet({k: tuple(v) for k, v in shapes.items()},
+                          tf_events, (0, 3), task["seed"])
   upd = jax.jit(opt.update)
   # the real direction transform, applied to the state's own direction state
   gopts = grafting.Options(
@@ -270,7 +274,7 @@ def run_tf(task, acc):
     nxt = []
     for s, accs, ast, hist in frontier:
       t = len(hist)
-      for ev in EVENTS:
+      for ev in tf_events:
         if not on_path(task, hist + (ev,)):
           continue
         g = {k: jnp.asarray(v) for k, v in alpha[ev].items()}
